@@ -23,14 +23,17 @@ import (
 // A: arithmetic monitor on the fee check of every tx type (exact big.Int oracle).
 // B: end-to-end: signed txs with wrapping output vectors through the mempool and
 //    through blocks on a real node + conservation monitor over the node's chain.
+// C: the "no-cost" forms whose context check ends before the fee check, on
+//    DPoS-era nodes (c01_nocost.go).
 
 func init() {
 	kit.Register(&kit.Spec{
-		ID:          "C01",
-		Rule:        "A: per tx type, output/reference amount vectors (edge values, uniform, and vectors CONSTRUCTED so the int64-wrapped sum equals inputs-fee) fed to the type's own CheckTransactionFee, chain.CheckTransactionFee and GetTxFeeMap; B: signed TransferAsset (v0/v9) spending real mature UTXOs with such vectors submitted to AppendToTxPool and inside blocks via ProcessBlock, over-claiming coinbases, followed by an exact conservation replay of the node's chain. distinct = distinct (type, vector); non-trivial = every amount individually valid (>=0) and the fee check was reached",
-		Shards:      func(tier string) int { return 8 },
-		Run:         runC01,
-		Require:     []string{"A_fee_checks", "A_wrap_constructed", "A_accepted_honest", "B_pool_submissions", "B_block_submissions", "B_accepted_honest", "B_conservation_replays", "A_types_reached"},
+		ID:     "C01",
+		Rule:   "A: per tx type, output/reference amount vectors (edge values, uniform, and vectors CONSTRUCTED so the int64-wrapped sum equals inputs-fee) fed to the type's own CheckTransactionFee, chain.CheckTransactionFee and GetTxFeeMap; B: signed TransferAsset (v0/v9) spending real mature UTXOs with such vectors submitted to AppendToTxPool and inside blocks via ProcessBlock, over-claiming coinbases, followed by an exact conservation replay of the node's chain. distinct = distinct (type, vector); non-trivial = every amount individually valid (>=0) and the fee check was reached; C (shards >= 8, compressed DPoS-era nodes): for each transaction form whose context check ends before the fee check (SideChainPow no-input form, IllegalProposalEvidence, ActivateProducer above NFTStartHeight, RecordSponsor, NextTurnDPOSInfo, RevertToPOW, RevertToDPOS) a valid instance plus shape variants (no inputs + valued outputs, honest form + extra valued outputs, valued marker, real input with outputs exceeding it) through AppendToTxPool and inside arbiter-confirmed blocks; accepted => exact sum(outputs) <= sum(spent)",
+		Shards: func(tier string) int { return c01BaseShards + len(c01cScripts) },
+		Run:    runC01,
+		Require: append([]string{"A_fee_checks", "A_wrap_constructed", "A_accepted_honest", "B_pool_submissions", "B_block_submissions", "B_accepted_honest", "B_conservation_replays", "A_types_reached"},
+			c01cRequire()...),
 		Assumptions: []string{"math/big is correct", "regnet parameters with CheckRewardHeight=0 (coinbase amount errors are not discarded)"},
 	})
 }
@@ -113,6 +116,10 @@ func mkRefs(tx interfaces.Transaction, ins []int64) map[*common2.Input]common2.O
 }
 
 func runC01(c *kit.Ctx) {
+	if c.Shard >= c01BaseShards {
+		runC01NoCost(c) // part C, c01_nocost.go
+		return
+	}
 	nd, err := node.Start(node.Options{Dir: c.WorkDir, CoinbaseMaturity: 2})
 	if err != nil {
 		c.Inconclusive("node start: %v", err)
